@@ -121,6 +121,10 @@ def unit_info(unit):
         if name not in TABLE:
             raise UnknownUnit(name)
         s, d, t = TABLE[name]
+        try:
+            exp = float(exp)  # pint keeps whatever number type it was given (numpy scalars included)
+        except (TypeError, ValueError):
+            raise UnknownUnit(f"{name} ** {exp!r}")
         scale *= s**exp
         e = Fraction(exp).limit_denominator(12)
         for i in range(len(DIMS)):
